@@ -190,28 +190,23 @@ def run(prog: Program) -> Results:
             lv = loop.target.id if isinstance(loop.target, ast.Name) else None
             if lv is None:
                 continue
-            direct = [s for s in loop.body if isinstance(s, ast.If)]
-            for chain in direct:
-                # walk the if/elif chain of this loop level only
-                tests, cur, default = [], chain, None
-                while True:
-                    tests.append(cur.test)
-                    if len(cur.orelse) == 1 and isinstance(cur.orelse[0], ast.If):
-                        cur = cur.orelse[0]
-                        continue
-                    default = cur.orelse
-                    break
-                rejects = any(isinstance(s, ast.Raise) and "Unsupported" in norm(s) for s in default or [])
-                on_type = all(f"{lv}.type" in norm(t) for t in tests)
-                if not (rejects and on_type):
-                    continue
-                r4.instances += 1
-                has_comment = any("'comment'" in norm(t) for t in tests)
-                r4.ob(has_comment, {"site": f.key, "loop_var": lv, "arms": [norm(t)[:40] for t in tests]})
-                if not has_comment:
-                    res.add("R-C01-4", (f.key, "child loop rejects comments", alpha(loop.iter, f.node)), f.loc(loop),
-                            f"{f.key}: the loop over `{norm(loop.iter)}` raises 'Unsupported child' for anything but "
-                            f"{[norm(t)[:30] for t in tests]}: a comment in that position (valid Nix) makes parse raise ValueError")
+            raises = [s_ for s_ in ast.walk(ast.Module(body=loop.body, type_ignores=[])) if isinstance(s_, ast.Raise) and "Unsupported" in norm(s_)]
+            inner_loops = [l for l in ast.walk(ast.Module(body=loop.body, type_ignores=[])) if isinstance(l, ast.For)]
+            raises = [x for x in raises if not any(any(x is y for y in ast.walk(l)) for l in inner_loops)]
+            typed = [t for t in ast.walk(ast.Module(body=loop.body, type_ignores=[])) if isinstance(t, ast.Compare) and norm(t.left) == f"{lv}.type"]
+            if not raises or not typed:
+                continue
+            # decision table: with child.type == "comment", may the `Unsupported child` rejection execute?  (independent of how
+            # the arms are arranged: if/elif order, negated tests, early continue)
+            from sa.dtable import outcome
+            r4.instances += 1
+            o = outcome(loop.body, {f"{lv}.type": "comment"})
+            rejected = any(a_.startswith("raise") and "Unsupported" in a_ for a_ in o.may)
+            r4.ob(not rejected, {"site": f.key, "loop_var": lv, "arms": sorted({norm(t)[:40] for t in typed})[:8]})
+            if rejected:
+                res.add("R-C01-4", (f.key, "child loop rejects comments", alpha(loop.iter, f.node)), f.loc(loop),
+                        f"{f.key}: the loop over `{norm(loop.iter)}` raises 'Unsupported child' for anything but "
+                        f"{sorted({norm(t)[:30] for t in typed})}: a comment in that position (valid Nix) makes parse raise ValueError")
 
     # ---------------------------------------------------------------- R-C01-5 dead render values
     r5 = res.rule("R-C01-5", "no dead render value: in the renderer closure every definition of a local that holds rendered text "
@@ -242,6 +237,7 @@ def run(prog: Program) -> Results:
         if fnd.rule == "R-C09-1":
             res.add("R-C01-6", fnd.key, fnd.where, fnd.message)
     presence_tests(prog, res, "R-C01-7", renderer_functions(prog, cg))
+    marker_positions(prog, res, "R-C01-8")
     res.assumptions = ["glue between adjacent tokens (separator presence), line-comment/newline adjacency and integer/let/trailing-"
                        "comma normalisations are value-level facts about concatenated strings and are not decided"]
     return res
@@ -354,3 +350,63 @@ def presence_tests(prog: Program, res: Results, rid: str, functions) -> None:
                         res.add(rid, (f.key, f"{base_cls}.{e.attr}", "truth test on a slot that admits", c), f.loc(t),
                                 f"{f.key}: `{norm(t)[:70]}` decides whether `{base_cls}.{e.attr}` is present by its truth value, but the slot "
                                 f"admits {c}, whose instances can be false ({falsy[c]}): an empty {c} is rendered as if the slot were absent")
+
+
+# ------------------------------------------------------------------------------------------------ R-C01-8
+def marker_positions(prog: Program, res: Results, rid: str) -> None:
+    """writer/reader agreement for the `comma` trivia marker (leading-comma formals)"""
+    r = res.rule(rid, "the `comma` marker is found wherever the parser put it: the parser appends it to a trivia list that may "
+                 "already hold an empty_line marker or own-line comments, so a renderer may test for it only by membership "
+                 "(`comma in xs`, a loop over xs), not at a fixed position", floor=2)
+    writers = []
+    for f in prog.all_functions():
+        for n in walk_no_nested(f.node):
+            if isinstance(n, ast.Call) and isinstance(n.func, ast.Attribute) and n.func.attr in ("append", "insert", "extend") \
+                    and any(isinstance(a, ast.Name) and a.id == "comma" for a in ast.walk(ast.Module(body=[ast.Expr(value=x) for x in n.args], type_ignores=[]))):
+                lst = norm(n.func.value)
+                top = f
+                while top.parent is not None:
+                    top = top.parent
+                # may the list be non-empty when the marker is added?  fresh-empty only if the statement just before (same block)
+                # assigns `lst = []`; anything else counts as "anywhere"
+                pos = "anywhere"
+                if n.func.attr == "insert" and n.args and isinstance(n.args[0], ast.Constant) and n.args[0].value == 0:
+                    pos = "first"
+                pm_ = None
+                for blk in ast.walk(top.node):
+                    for fld in ("body", "orelse", "finalbody"):
+                        seq = getattr(blk, fld, None)
+                        if isinstance(seq, list):
+                            for i, st in enumerate(seq):
+                                if isinstance(st, ast.Expr) and st.value is n and i > 0:
+                                    prev = seq[i - 1]
+                                    if isinstance(prev, ast.Assign) and norm(prev.targets[0]) == lst and isinstance(prev.value, ast.List) and not prev.value.elts:
+                                        pos = "first"
+                writers.append((f, n, lst, pos))
+    r.instances += len(writers)
+    for f, n, lst, pos in writers:
+        r.ob(True, {"writer": f.key, "statement": norm(n), "position": pos})
+    if not writers:
+        res.unclass("no writer of the `comma` marker found in the parser")
+        return
+    everywhere = any(pos == "anywhere" for *_x, pos in writers)
+    for f in prog.all_functions():
+        for n in walk_no_nested(f.node):
+            positional = None
+            if isinstance(n, ast.Compare) and len(n.ops) == 1 and isinstance(n.ops[0], (ast.Is, ast.Eq, ast.IsNot, ast.NotEq)):
+                l, rgt = n.left, n.comparators[0]
+                for a, b in ((l, rgt), (rgt, l)):
+                    if isinstance(b, ast.Name) and b.id == "comma" and isinstance(a, ast.Subscript) and not isinstance(a.slice, ast.Slice):
+                        positional = a
+            member = isinstance(n, ast.Compare) and len(n.ops) == 1 and isinstance(n.ops[0], (ast.In, ast.NotIn)) \
+                and isinstance(n.left, ast.Name) and n.left.id == "comma"
+            if positional is None and not member:
+                continue
+            r.instances += 1
+            ok = member or not everywhere
+            r.ob(ok, {"reader": f.key, "test": norm(n)[:60], "kind": "membership" if member else "positional"})
+            if not ok:
+                res.add(rid, (f.key, "comma marker tested at a fixed position", alpha(positional, (f.parent or f).node, anonymous=True)), f.loc(n),
+                        f"{f.key}: `{norm(n)[:70]}` looks for the leading-comma marker at a fixed index, but "
+                        f"{sorted({w[0].key for w in writers if w[3] == 'anywhere'})} append it after an empty_line marker or own-line "
+                        f"comments: for `{{ a\\n\\n, b }}:` the previous formal gets its own comma as well and the output has two commas")
